@@ -382,12 +382,38 @@ def defaultListen : Bytes := [49,50,55,46,48,46,48,46,49,58,49,56,48,48,49]
 def peerAddr (listen peer : Bytes) : Bytes :=
   if peer = [] then (if listen = [] then defaultListen else listen) else peer
 
-/-- the id an instance contends under, `none` = configuration refused.
-    `unspec` = the host part of the resulting peer address is empty or the
-    unspecified address (computed by Go's net package). -/
-def electionId (cluster : Bool) (listen peer : Bytes) (unspec : Bool) : Option Bytes :=
-  if cluster && (listen = [] && peer = []) then none
-  else if cluster && unspec then none
+/-- index-free split at the LAST ':' (Go `net.SplitHostPort` for the shapes
+    `host:port` and `[v6]:port`); `none` if there is no ':' -/
+def splitLastColon : Bytes → Option (Bytes × Bytes)
+  | [] => none
+  | c :: rest =>
+    match splitLastColon rest with
+    | some (h, p) => some (c :: h, p)
+    | none => if c = 58 then some ([], rest) else none
+
+/-- host part of `host:port`; brackets of `[v6]:port` removed; a bare host
+    that itself contains ':' is malformed ("too many colons") -/
+def hostOf (addr : Bytes) : Option Bytes :=
+  match splitLastColon addr with
+  | none => none
+  | some (h, _) =>
+    if h.head? = some 91 ∧ h.getLast? = some 93 then some (h.drop 1).dropLast
+    else if h.contains 58 then none else some h
+
+/-- empty host, "0.0.0.0" or "::" (the spellings of the unspecified address
+    that are modelled; Go's `IP.IsUnspecified` accepts a few more) -/
+def unspecHost (h : Bytes) : Bool :=
+  h = [] || h = [48,46,48,46,48,46,48] || h = [58,58]
+
+/-- the id an instance contends under, `none` = configuration refused
+    ((*SyncConfig).fix → checkPeerIdentity). A host NAME (incl. `localhost`)
+    is taken as it is written. -/
+def electionId (cluster : Bool) (listen peer : Bytes) : Option Bytes :=
+  if cluster then
+    if listen = [] ∧ peer = [] then none
+    else match hostOf (peerAddr listen peer) with
+      | none => none
+      | some h => if unspecHost h then none else some (peerAddr listen peer)
   else some (peerAddr listen peer)
 
 /-! ## config/config.go `(*ClusterConfig).fix` (durations in nanoseconds) -/
